@@ -97,7 +97,7 @@ PROPS = {
             "the non-fast-float build's f64_from_parts (from_utf8_unchecked on itoa output) is not extracted (only the default feature set is)",
             "vstd's axiom that a Rust `str` is well-formed UTF-8 (s.spec_bytes() == encode_utf8(s@))",
         ],
-        not_covered=["`impl Display for Value` (value/mod.rs WriterFormatter: converts each written chunk with the CHECKED std::str::from_utf8, so no ill-formed str can arise there; not extracted)"],
+        not_covered=["`impl Display for Value`: the adaptor WriterFormatter::write is extracted (unit print) and converts each written chunk with the CHECKED std::str::from_utf8, so no ill-formed str can arise there; Display::fmt itself (two lines) is not under contract"],
         trusted=STD_TRUST,
     ),
     "C19": dict(
@@ -170,12 +170,18 @@ PROPS = {
                     "all option sets symbolically), the number visitor, the byte-vector element closures, the char/string escape writers carry "
                     "emits(r, sunk_before, sunk_after, txt_X(options, arg)): Ok => exactly the text, Err => a prefix of it. The entry points to_writer / "
                     "to_writer_custom (at the instantiation W = &mut V: a ghost `fut` token on the sink model carries `the writer still borrows the same sink` "
-                    "through every emitter), to_vec(_custom) (the Vec holds exactly the text) and to_string(_custom) are under the same contract.",
+                    "through every emitter), to_vec(_custom) (the Vec holds exactly the text) and to_string(_custom) are under the same contract. "
+                    "`impl Display for Value`: the io::Write adaptor around the fmt::Formatter (value/mod.rs WriterFormatter::write / flush) is extracted and verified as an "
+                    "implementor of the same sink contract - Ok(n) means exactly the first n bytes of the buffer reached the Formatter, an error means none did - so "
+                    "everything to_writer guarantees for a sink holds for Display's sink.",
         assumptions=[
             "std::io::Write contract as documented (sink model inc/sink.vrs); itoa/ryu output are uninterpreted texts dec_int / ryu_text",
             "write!(w, \"LIT{:x}\", n) is replaced by an assumed all-or-prefix emitter of LIT ++ lower_hex(n) (rule R8)",
             "the Formatter trait header is restated (split into FormatterBase/Formatter to avoid a Verus trait cycle); default method bodies are verified per implementor",
             "write_scheme_vector / Number::visit are verified at the instantiations used by print.rs with the literal closures defunctionalised (R10)",
+            "core::fmt::Formatter is an opaque text sink (FmtFormatter): write_str appends the whole str or fails having appended nothing (assumed); the adaptor struct is "
+            "restated with one ghost field (bytes offered so far); its write_all is std's default method (assumed to meet the sink contract, as for every sink); "
+            "the two-line Display::fmt (construct adaptor, call to_writer, map the error) is not under contract (DESIGN 9.8)",
         ],
         trusted=STD_TRUST,
     ),
